@@ -156,9 +156,17 @@ def _dt_of(name, complex_=False):
     return jnp.float64
 
 
+_EDGES = None  # edge arrays of the scene being built when its grid is non-uniform (index-space placement is rejected there)
+
+
 def _box_constraints(obj, box):
     lo = tuple(int(b[0]) for b in box)
-    return [obj.set_grid_coordinates(axes=(0, 1, 2), sides=("-", "-", "-"), coordinates=lo)]
+    if _EDGES is None:
+        return [obj.set_grid_coordinates(axes=(0, 1, 2), sides=("-", "-", "-"), coordinates=lo)]
+    # non-uniform grid: pin the lower side of each axis to the physical coordinate of its edge (snaps to that edge exactly)
+    from fdtdx.objects.object import RealCoordinateConstraint
+
+    return [RealCoordinateConstraint(object=obj.name, axes=(0, 1, 2), sides=("-", "-", "-"), coordinates=tuple(float(_EDGES[a][lo[a]]) for a in range(3)))]
 
 
 def make_source(s, idx):
@@ -338,6 +346,10 @@ def build(spec):
     vol_kw = {}
     if spec.get("vol_material") is not None:
         vol_kw["material"] = fdtdx.Material(**spec["vol_material"])
+    global _EDGES
+    _EDGES = None
+    if isinstance(grid, fdtdx.RectilinearGrid) and not grid.is_uniform:
+        _EDGES = [np.asarray(grid.edges(a), dtype=np.float64) for a in range(3)]
     volume = fdtdx.SimulationVolume(name="volume", partial_grid_shape=shape, **vol_kw)
     objs, cons = [volume], []
     b, c = make_boundaries(spec, volume)
